@@ -1,10 +1,16 @@
 package vc
 
 import (
+	"encoding/json"
+	"flag"
 	"fmt"
 	"io"
+	"os"
+	"path/filepath"
 	"sort"
+	"strconv"
 	"strings"
+	"time"
 )
 
 func (u *Unit) NoteList() []string { return sortedKeys(u.Notes) }
@@ -26,7 +32,7 @@ func (e *Engine) Units(prop, filter string) []*Unit {
 	var us []*Unit
 	bound, unbound := e.Bind()
 	for _, c := range unbound {
-		if hasProp(c.Props, prop) && strings.Contains(c.Key, filter) {
+		if hasProp(c.Props, prop) && strings.Contains(c.Key, filter) && len(c.Props) > 0 {
 			u := newUnit(e, c.PkgPath+"."+c.Key, Mode{})
 			u.FuncKey = c.Key
 			u.contract = c
@@ -73,7 +79,239 @@ func (e *Engine) DumpSSA(name string, w io.Writer) {
 	}
 }
 
+// ---------------------------------------------------------------- known findings
+
+type knownFinding struct {
+	Prop string
+	Obl  string
+	Text string
+}
+
+func loadKnownFindings(path string) (findings []knownFinding, fixed []string) {
+	b, err := os.ReadFile(path)
+	if err != nil {
+		return nil, nil
+	}
+	for _, l := range strings.Split(string(b), "\n") {
+		l = strings.TrimSpace(l)
+		if strings.HasPrefix(l, "fixed:") {
+			fixed = append(fixed, l)
+			continue
+		}
+		if !strings.HasPrefix(l, "finding:") {
+			continue
+		}
+		rest := strings.TrimSpace(l[len("finding:"):])
+		kf := knownFinding{}
+		for _, f := range strings.Fields(rest) {
+			if strings.HasPrefix(f, "property=") {
+				kf.Prop = f[len("property="):]
+			} else if strings.HasPrefix(f, "obligation=") {
+				kf.Obl = f[len("obligation="):]
+			}
+		}
+		if i := strings.Index(rest, " -- "); i >= 0 {
+			kf.Text = strings.TrimSpace(rest[i+4:])
+		}
+		findings = append(findings, kf)
+	}
+	return
+}
+
+// ---------------------------------------------------------------- check
+
+type evidence struct {
+	PropertyID  string         `json:"property_id"`
+	Tier        string         `json:"tier"`
+	Seed        int            `json:"seed"`
+	Level       string         `json:"level"`
+	Coverage    map[string]any `json:"coverage"`
+	Assumptions []string       `json:"assumptions"`
+	WallS       float64        `json:"wall_s"`
+	Violations  int            `json:"violations"`
+}
+
 func CheckMain(args []string) int {
-	fmt.Println("not implemented yet")
-	return 2
+	fs := flag.NewFlagSet("check", flag.ExitOnError)
+	prop := fs.String("property", "", "property id")
+	tier := fs.String("tier", "quick", "quick|thorough")
+	repo := fs.String("repo", "/repo", "repository")
+	root := fs.String("root", "/verif", "verif root")
+	fs.Parse(args)
+	if t := os.Getenv("VERIF_TIER"); t == "quick" || t == "thorough" {
+		*tier = t
+	}
+	seed, _ := strconv.Atoi(os.Getenv("VERIF_SEED"))
+	t0 := time.Now()
+	eng, err := Load(*repo, filepath.Join(*root, "extern"), []string{"./..."})
+	if err != nil {
+		fmt.Println("ENGINE-ERROR: cannot load the repository:", err)
+		return 2
+	}
+	if len(eng.CS.Errors) > 0 {
+		for _, e := range eng.CS.Errors {
+			fmt.Println("CONTRACT-ERROR:", e)
+		}
+		return 2
+	}
+	units := eng.Units(*prop, "")
+	var obls []*Obligation
+	var undecided []string
+	fuc := []string{}
+	notes := map[string]bool{}
+	for _, u := range units {
+		for _, ud := range u.Undecided {
+			undecided = append(undecided, u.Name+": "+ud)
+		}
+		// a unit that fell outside the subset midway keeps no obligations: its partial
+		// encoding proves nothing
+		if len(u.Undecided) > 0 {
+			continue
+		}
+		obls = append(obls, u.Obls...)
+		fuc = append(fuc, u.Name)
+		for n := range u.Notes {
+			notes[n] = true
+		}
+	}
+	secs := 10
+	all := false
+	if *tier == "thorough" {
+		secs = 60
+		all = true
+	}
+	work := filepath.Join(*root, "work", *prop)
+	os.RemoveAll(work)
+	res := SolveAll(obls, work, secs, all, 6)
+	findings, _ := loadKnownFindings(filepath.Join(*root, "known_findings.txt"))
+	nObl, nDis, nCover, nCoverUnknown := 0, 0, 0, 0
+	bySolver := map[string]int{}
+	var solverMs int64
+	var samples []map[string]any
+	var violations []OblResult
+	var known []string
+	var disagreements []string
+	for _, r := range res {
+		solverMs += r.Winner.Ms
+		if r.O.Cover {
+			nCover++
+			if r.Status == "cover-unknown" {
+				nCoverUnknown++
+			}
+			if r.Status == "cover-vacuous" {
+				violations = append(violations, r)
+			}
+			continue
+		}
+		nObl++
+		if all {
+			sawSat, sawUnsat := false, false
+			for _, a := range r.All {
+				if a.Result == "sat" {
+					sawSat = true
+				}
+				if a.Result == "unsat" {
+					sawUnsat = true
+				}
+			}
+			if sawSat && sawUnsat {
+				disagreements = append(disagreements, r.O.Name)
+			}
+		}
+		switch r.Status {
+		case "discharged":
+			nDis++
+			bySolver[r.Winner.Solver]++
+			if len(samples) < 6 && (r.O.Kind == "post" || r.O.Kind == "lemma" || strings.Contains(r.O.Kind, "inv")) {
+				samples = append(samples, map[string]any{"obligation": r.O.Name, "kind": r.O.Kind, "what": r.O.Desc, "solver": r.Winner.Solver, "ms": r.Winner.Ms, "smt_bytes": r.Bytes, "assertions": r.Asserts})
+			}
+		default:
+			matched := false
+			for _, kf := range findings {
+				if kf.Prop == *prop && kf.Obl == r.O.Name {
+					matched = true
+					known = append(known, r.O.Name)
+					fmt.Printf("KNOWN-FINDING: property=%s %s (%s) %s\n", *prop, r.O.Name, r.Status, kf.Text)
+				}
+			}
+			if !matched {
+				violations = append(violations, r)
+			}
+		}
+	}
+	if len(samples) == 0 {
+		for _, r := range res {
+			if r.Status == "discharged" && len(samples) < 4 {
+				samples = append(samples, map[string]any{"obligation": r.O.Name, "kind": r.O.Kind, "what": r.O.Desc, "solver": r.Winner.Solver, "ms": r.Winner.Ms})
+			}
+		}
+	}
+	exit := 0
+	for _, d := range disagreements {
+		fmt.Printf("ENGINE-ERROR: solvers disagree on %s\n", d)
+		exit = 2
+	}
+	for _, ud := range undecided {
+		fmt.Printf("UNDECIDED %s\n", ud)
+	}
+	repDir := filepath.Join(*root, "replays", *prop)
+	for _, v := range violations {
+		os.MkdirAll(repDir, 0o755)
+		rp := filepath.Join(repDir, safeFile(v.O.Name)+".json")
+		rep := map[string]any{
+			"property": *prop, "obligation": v.O.Name, "kind": v.O.Kind, "what": v.O.Desc, "at": v.O.Pos, "status": v.Status,
+			"smt_file": v.File, "solver_answers": v.All, "model": v.Model,
+		}
+		confirmed := false
+		if v.Status == "refuted" && v.Model != "" {
+			if rr := eng.Replay(v, filepath.Join(*root, "work", *prop)); rr != nil {
+				rep["replay"] = rr
+				confirmed = rr.Confirmed
+			}
+		}
+		b, _ := json.MarshalIndent(rep, "", " ")
+		os.WriteFile(rp, b, 0o644)
+		suffix := ""
+		if !confirmed {
+			suffix = " no-failing-input-found"
+		}
+		fmt.Printf("VIOLATION property=%s replay=%s obligation=%s status=%s%s\n", *prop, rp, v.O.Name, v.Status, suffix)
+		exit = 1
+	}
+	// evidence
+	trusted := []string{"go/packages + go/ssa lowering of the current /repo tree (build tag verif)", "SMT solvers z3 4.8.12, z3 5.1.0, cvc5 1.0.x", "govc VC generator (memory model and loop cutting of DESIGN.md §2)"}
+	for _, t := range eng.CS.Trust {
+		trusted = append(trusted, t)
+	}
+	var assumptions []string
+	for _, n := range sortedKeys(notes) {
+		assumptions = append(assumptions, n)
+	}
+	assumptions = append(assumptions, "slice/string lengths are below 2^40 (physical memory bound)", "goroutines, channels and scheduling are not modelled", "calls return (termination of callees is not verified)")
+	level := "proof"
+	if nObl == 0 || len(undecided) > 0 && nDis == 0 {
+		level = "other"
+	}
+	cov := map[string]any{
+		"obligations": nObl, "discharged": nDis,
+		"checker_cmd":  fmt.Sprintf("govc check -property %s -tier %s (z3 4.8.12 | z3-new 5.1.0 | cvc5 raced, %d s per obligation)", *prop, *tier, secs),
+		"trusted_base": trusted, "functions_under_contract": fuc, "by_solver": bySolver, "solver_time_s": float64(solverMs) / 1000,
+		"vacuity_covers": nCover, "vacuity_covers_unknown": nCoverUnknown,
+		"samples": samples, "undecided": undecided, "known_findings": known, "exhaustive": false,
+		"explanation": "every obligation generated from the SSA of the functions under contract was raced on three SMT solvers; unsat = discharged",
+		"evaluations": nObl, "distinct_nontrivial": nDis,
+	}
+	ev := evidence{PropertyID: *prop, Tier: *tier, Seed: seed, Level: level, Coverage: cov, Assumptions: assumptions, WallS: time.Since(t0).Seconds(), Violations: len(violations)}
+	os.MkdirAll(filepath.Join(*root, "evidence"), 0o755)
+	b, _ := json.MarshalIndent(ev, "", " ")
+	os.WriteFile(filepath.Join(*root, "evidence", *prop+".json"), b, 0o644)
+	fmt.Printf("property %s tier %s: %d obligations, %d discharged, %d known findings, %d violations, %d undecided units, %d covers (%d unknown), %.1fs\n",
+		*prop, *tier, nObl, nDis, len(known), len(violations), len(undecided), nCover, nCoverUnknown, time.Since(t0).Seconds())
+	if nObl == 0 && len(undecided) == 0 {
+		fmt.Println("ENGINE-ERROR: no obligations generated for", *prop)
+		if exit == 0 {
+			exit = 2
+		}
+	}
+	return exit
 }
